@@ -223,14 +223,7 @@ def run_generator(code, env):
     return {'out': out, 'stop': stop}
 
 
-def first_diff(got, exp):
-    """Index of the first point where the tables differ (points the model leaves undefined are skipped); None if equal."""
-    if isinstance(got, str):
-        return 0
-    for i, (g, e) in enumerate(zip(got, exp)):
-        if e != 'U' and g != e:
-            return i
-    return None
+first_diff = px.first_diff
 
 
 def selfcheck(what, src, got, exp, envs_desc):
@@ -352,7 +345,7 @@ def check_gen_row(ctx, st, r, names, forms, space):
     code0 = compile(src, '<c03>', 'eval')
     for ri, env in enumerate(RUN_ENVS):
         got = run_generator(code0, env)
-        if got != r['runs'][ri]:
+        if not px.same(got, r['runs'][ri]):
             raise MachineryError('PyExpr.EvalGen disagrees with CPython on %s (run %d): spec %r, CPython %r' % (src, ri, r['runs'][ri], got))
     st.selfcheck_points += len(r['elt']) * (1 + len(node.generators)) + len(RUN_ENVS)
     st.c['generators'] += 1
@@ -426,7 +419,7 @@ def compare_generator(st, tree, node, r, envs, names):
     for ri, env in enumerate(RUN_ENVS):
         got = run_generator(code, env)
         st.points += 1
-        if got != r['runs'][ri]:
+        if not px.same(got, r['runs'][ri]):
             return 'run over T=%r, U=%r, a=%r: the source yields %s, the decompiled generator %s' % (
                 T_VALUES, U_VALUES, env['a'], r['runs'][ri], got)
     return None
